@@ -191,7 +191,9 @@ type Query struct {
 	OrderBy               []core.OrderBy
 	Offset                int
 	Limit                 int
-	ForceFresh            bool
+	// HasLimit is true if the query specified a LIMIT (which may be 0)
+	HasLimit   bool
+	ForceFresh bool
 }
 
 // TableFor returns the table in the FROM clause of this query
@@ -645,6 +647,7 @@ func (q *Query) applyLimit(stmt *sqlparser.Select) error {
 				return fmt.Errorf("Unable to parse limit %v: %v", _limit, err)
 			}
 			q.Limit = limit
+			q.HasLimit = true
 		}
 
 		if stmt.Limit.Offset != nil {
